@@ -39,8 +39,11 @@ VARIABLES pstate,      \* per pool: conn, noconn, shutdown
           connks,      \* per pool: keyspace selected on its current connection: old, new; none = no live connection
           poolks,      \* per pool: the keyspace the pool gives to connections it opens (pool._keyspace)
           borrowed,    \* per pool: keyspace of the connection borrowed after the switch; "-" not yet, none = borrow failed
+          rph,         \* per pool without connection: where its _replace task is: queued, open (past the shutdown check),
+                       \* use (connected), publish (keyspace selected on the new connection), done; "none" for the others
+          newks,       \* per pool: keyspace selected on the replacement connection that is not published yet ("-" if none)
           act
-vars == <<pstate, outcome, phase, asked, remaining, errs, completions, result, connks, poolks, borrowed, act>>
+vars == <<pstate, outcome, phase, asked, remaining, errs, completions, result, connks, poolks, borrowed, rph, newks, act>>
 
 A(name, p) == [name |-> name, p |-> p]
 HasConn(p) == pstate[p] = "conn"
@@ -55,6 +58,9 @@ Init ==
     /\ connks = [p \in Pools |-> IF HasConn(p) THEN "old" ELSE "none"]
     /\ poolks = [p \in Pools |-> "old"]
     /\ borrowed = [p \in Pools |-> "-"]
+    /\ rph \in [Pools -> {"none", "queued", "open", "use", "publish"}]      \* the switch may find the replacement anywhere
+    /\ \A p \in Pools : rph[p] = "none" <=> pstate[p] # "noconn"
+    /\ newks = [p \in Pools |-> IF rph[p] = "publish" THEN "old" ELSE "-"]
     /\ act = A("Init", 0)
 
 (* INTENDED (C20): a pool that is shut down or has no connection at the       *)
@@ -68,7 +74,7 @@ Start ==
     /\ remaining' = {p \in Pools : HasConn(p)}
     /\ poolks' = [p \in Pools |-> IF pstate[p] = "shutdown" THEN poolks[p] ELSE "new"]
     /\ act' = A("Start", 0)
-    /\ UNCHANGED <<pstate, outcome, errs, completions, result, connks, borrowed>>
+    /\ UNCHANGED <<pstate, outcome, errs, completions, result, connks, borrowed, rph, newks>>
 
 (* INTENDED (C20): the completion reports every error collected (the pinned   *)
 (* code passes the last pool's errors only), and a connection that died with  *)
@@ -87,15 +93,32 @@ PoolFinish(p) ==
             /\ phase' = "done"
        ELSE UNCHANGED <<completions, result, phase>>
     /\ act' = A("PoolFinish", p)
-    /\ UNCHANGED <<pstate, outcome, poolks, borrowed>>
+    /\ UNCHANGED <<pstate, outcome, poolks, borrowed, rph, newks>>
 
 (* the pool's _replace task opens a new connection and selects pool._keyspace on it *)
 Reconnect(p) ==
-    /\ phase = "done" /\ pstate[p] # "shutdown" /\ connks[p] = "none" /\ borrowed[p] = "-"
+    /\ phase = "done" /\ pstate[p] = "conn" /\ connks[p] = "none" /\ borrowed[p] = "-"
     /\ \A q \in Pools : q < p => borrowed[q] # "-"
     /\ connks' = [connks EXCEPT ![p] = poolks[p]]
     /\ act' = A("Reconnect", p)
+    /\ UNCHANGED <<pstate, outcome, phase, asked, remaining, errs, completions, result, poolks, borrowed, rph, newks>>
+
+(* The _replace task of a pool that had no connection when the switch began, step by step (pool.py 504-520): *)
+(* the shutdown check, connection_factory, set_keyspace_blocking(self._keyspace), the publication.           *)
+(* They interleave freely with the answers of the other pools.                                               *)
+RStep(p, from, to, nk, ck) ==
+    /\ phase # "idle" /\ rph[p] = from
+    /\ rph' = [rph EXCEPT ![p] = to]
+    /\ newks' = [newks EXCEPT ![p] = nk]
+    /\ connks' = [connks EXCEPT ![p] = ck]
     /\ UNCHANGED <<pstate, outcome, phase, asked, remaining, errs, completions, result, poolks, borrowed>>
+RCheck(p) == RStep(p, "queued", "open", newks[p], connks[p]) /\ act' = A("RCheck", p)
+ROpen(p)  == RStep(p, "open", "use", newks[p], connks[p]) /\ act' = A("ROpen", p)
+(* the keyspace is read from the pool when the USE is issued, not earlier *)
+RUse(p)   == RStep(p, "use", "publish", poolks[p], connks[p]) /\ act' = A("RUse", p)
+(* INTENDED (C20): the connection that becomes the pool's connection has the keyspace the pool recorded, also  *)
+(* when a switch was recorded after the USE above (the pinned code publishes it on the keyspace of that USE).  *)
+RPublish(p) == RStep(p, "publish", "done", "-", poolks[p]) /\ act' = A("RPublish", p)
 
 Borrow(p) ==
     /\ phase = "done" /\ borrowed[p] = "-"
@@ -103,9 +126,9 @@ Borrow(p) ==
     /\ pstate[p] = "shutdown" \/ connks[p] # "none"
     /\ borrowed' = [borrowed EXCEPT ![p] = IF pstate[p] = "shutdown" THEN "none" ELSE connks[p]]
     /\ act' = A("Borrow", p)
-    /\ UNCHANGED <<pstate, outcome, phase, asked, remaining, errs, completions, result, connks, poolks>>
+    /\ UNCHANGED <<pstate, outcome, phase, asked, remaining, errs, completions, result, connks, poolks, rph, newks>>
 
-Next == Start \/ \E p \in Pools : PoolFinish(p) \/ Reconnect(p) \/ Borrow(p)
+Next == Start \/ \E p \in Pools : PoolFinish(p) \/ Reconnect(p) \/ Borrow(p) \/ RCheck(p) \/ ROpen(p) \/ RUse(p) \/ RPublish(p)
 
 Spec == Init /\ [][Next]_vars
 
@@ -126,5 +149,7 @@ NoneOnlyWhenShutdown == \A p \in Pools : borrowed[p] = "none" => pstate[p] = "sh
 Witness_SuccessWithPoolWithoutConnection == ~(result = "ok" /\ \E p \in Pools : pstate[p] = "noconn" /\ borrowed[p] = "new")
 Witness_ErrorThenOkLast == ~(act.name = "PoolFinish" /\ phase = "done" /\ result = "error" /\ outcome[act.p] = "ok")
 Witness_DiedOnly == ~(phase = "done" /\ result = "error" /\ \A p \in Pools : HasConn(p) => outcome[p] \in {"ok", "died"})
+Witness_SwitchBetweenUseAndPublish == ~(\E p \in Pools : rph[p] = "publish" /\ newks[p] = "old" /\ poolks[p] = "new")
+Witness_SwitchWhileConnecting == ~(\E p \in Pools : rph[p] = "use" /\ poolks[p] = "new")
 Witness_AllBorrowedAfterSuccess == ~(result = "ok" /\ \A p \in Pools : borrowed[p] # "-")
 =============================================================================
